@@ -383,8 +383,9 @@ fn generate_preview_output(plan: &Plan, format: &str, use_color: bool) -> Result
 
 fn get_user_confirmation() -> Result<bool> {
     let _guard = crate::interrupt::ConfirmationPromptGuard::activate();
-    print!("Apply? [y/N]: ");
-    IoWrite::flush(&mut io::stdout()).context("Failed to flush stdout")?;
+    // The prompt is a diagnostic, not output: stdout may carry the `--output json` document
+    eprint!("Apply? [y/N]: ");
+    IoWrite::flush(&mut io::stderr()).context("Failed to flush stderr")?;
 
     let mut input = String::new();
     io::stdin()
